@@ -150,7 +150,7 @@ def main(tier):
     chk.assumptions = ['bit-identity of two separate processes (FFTW wisdom/planner determinism, random_device) and the effect of log verbosity inside Display::printText are outside: the second sentence of the statement is not claimed',
                        'OpenGL display path not compiled', 'a call is an event; its effect on the simulation state is given by the frame conditions above or (for the transport steps) is the step itself']
     chk.stubs = ['HDF5 C++ API recorder', 'FFT uninterpreted', 'normal_distribution draw: fresh real', 'main: calls as events']
-    chk.add(run_jobs(jobs, budget=1500 if tier == 'quick' else 6000))
+    _rs = run_jobs(jobs, budget=1500 if tier == 'quick' else 6000); _rs.append(mainloop.loop_witness(_rs, 'C12')); chk.add(_rs)
     chk.finish()
 
 if __name__ == '__main__':
